@@ -27,8 +27,8 @@ META = {
     "id": "C20",
     "level": "proof",
     "technique": "Coq theorems (ring/lia/nia over Z, unbounded) about an executable integer model of pbc_dist_coordinate and the built-in order parameters returning the exact arguments of sqrt/arctan2 + lock-step of the extracted model vs the real classes on dyadic-grid inputs (exhaustive small grids, seeded random beyond) + direct symmetry oracle on the implementation",
-    "text": "Unbounded theorems for every coordinate, velocity, orthogonal box, index choice, image shift, translation and rational rotation: translation invariance of Distance/Distancevel/Dihedral/Puckering; image-shift invariance of the periodic variants (Distance unconditionally, the others unless a separation component is exactly a half-integer multiple of the box length, with a computed witness that this guard is necessary); |minimum-image component| <= L/2 and it is an image; rotation invariance (M^T M = c^2 I, det = c^3; the dihedral numerator flips under improper maps); sign flip of Distancevel/Velocity and invariance of the position-type parameters under velocity reversal, also through the vel_rev flag of calculate_order on both of its routes (phase point handed in as arrays, or - as soon as one of xyz / vel / box is missing - read by the engine's own _read_configuration from the file the phase point references: the routes agree and the flag is applied on both); 3- vs 9-component box independence; homogeneity under a common positive factor (which is what makes the integer/dyadic scaling immaterial). The model is tied to /repo on every run by lock-step of the extracted model against the real classes and by evaluating the statement itself on the real classes (inputs copied before and compared after calculate). calculate_order is run on real engines in process (TurtleMDEngine constructed as the program does, CP2KEngine and GromacsEngine without their constructors; xyz and g96 files written with the package's writers) for every way of leaving arguments out, vel_rev False/True, Position / Velocity / Distance / Distancevel / Dihedral, with decoy overrides and a stale system.box.",
-    "note": "Trusted: Coq kernel (all 46 theorems closed under the global context); extraction (ExtrOcamlBasic) + OCaml driver; the Python harness, which also applies the uninterpreted sqrt/arctan2/sin/cos to the model's exact arguments. Floating-point rounding is outside the model: inputs are dyadic so that every sum/product before the final sqrt/arctan2 is exact; cases whose result depends on the last ulp (exact half-box ties with a box length that is not a power of two, exactly degenerate angles) are counted as float_boundary_skipped. calculate_order's file route takes what _read_configuration returns as an explicit input of the model (the readers themselves are C19's subject); the phase points written to files have at most 4 binary digits so that the 4-decimal box header and the 9-decimal coordinates are exact and both routes must give bit-identical values; a file without box keeps whatever system.box held (modelled as box0; no agreement of routes is claimed for periodic parameters then). Model numbers are integers (dyadic floats over a common power of two; homogeneity theorems C20_scale_*); rotations are rational (integer matrix M with M^T M = c^2 I). Distancevel is modelled as repaired by proposed_fixes/C20_distancevel_box.diff (lead L7; theorem C20_box_form_distancevel_refuted covers the code as it is). Path.reverse's recomputation of velocity-dependent orders is modelled as it is and does not honour the reversal (lead L12: C20_path_reverse_sign_refuted, C20_path_reverse_unevaluable) - reported as a known finding, not claimed.",
+    "text": "Unbounded theorems for every coordinate, velocity, orthogonal box, index choice, image shift, translation and rational rotation: translation invariance of Distance/Distancevel/Dihedral/Puckering; image-shift invariance of the periodic variants (Distance unconditionally, the others unless a separation component is exactly a half-integer multiple of the box length, with a computed witness that this guard is necessary); |minimum-image component| <= L/2 and it is an image; rotation invariance (M^T M = c^2 I, det = c^3; the dihedral numerator flips under improper maps); sign flip of Distancevel/Velocity and invariance of the position-type parameters under velocity reversal, also through the vel_rev flag of calculate_order on both of its routes (phase point handed in as arrays, or - as soon as one of xyz / vel / box is missing - read by the engine's own _read_configuration from the file the phase point references: the routes agree and the flag is applied on both); 3- vs 9-component box independence; homogeneity under a common positive factor (which is what makes the integer/dyadic scaling immaterial). The model is tied to /repo on every run by lock-step of the extracted model against the real classes and by evaluating the statement itself on the real classes (inputs copied before and compared after calculate). calculate_order is run on real engines in process (TurtleMDEngine constructed as the program does, CP2KEngine and GromacsEngine without their constructors; xyz and g96 files written with the package's writers) for every way of leaving arguments out, vel_rev False/True, Position / Velocity / Distance / Distancevel / Dihedral, with decoy overrides and a stale system.box. Where the package applies the flag: EngineBase.propagate hands the engine a system whose vel_rev IS the direction of the run (model propagate_flag / propagate_frame, theorems C20_propagate_*: the order stored for a frame of propagate(reverse=r) is computed under flag r whatever flag the shooting point came in with; recomputing it from the frame's raw content under the frame's stored flag gives the stored order; frame 0 of either direction carries the shooting point's order; the run in the opposite direction from the reversed point starts the engine with the same raw velocities and stores the sign-reversed (Velocity, Distancevel) / the same (position-type) orders). Tied to /repo by real propagations of in-process engines (TurtleMDEngine with velocity Verlet and with the Langevin integrator, ASEEngine with velocity Verlet; Lennard-Jones atoms in a periodic box) with every order-parameter class, incoming system.vel_rev x reverse: frame 0 in lock-step with the model (order and flag), and on the implementation alone (a) frame 0 of either half has the shooting point's order and every frame is flagged with the direction, (b) every stored order is reproduced from the frame read back with the engine's own _extract_frame/_read_configuration under the frame's stored flag, and by the engine's dump_phasepoint + calculate_order, (c) the opposite-direction run from the velocity-reversed point stores the sign-reversed / equal orders frame by frame, (d) with velocity Verlet the run back from the last frame retraces the path with the same orders.",
+    "note": "Trusted: Coq kernel (all 53 theorems closed under the global context); extraction (ExtrOcamlBasic) + OCaml driver; the Python harness, which also applies the uninterpreted sqrt/arctan2/sin/cos to the model's exact arguments. Floating-point rounding is outside the model: inputs are dyadic so that every sum/product before the final sqrt/arctan2 is exact; cases whose result depends on the last ulp (exact half-box ties with a box length that is not a power of two, exactly degenerate angles) are counted as float_boundary_skipped. calculate_order's file route takes what _read_configuration returns as an explicit input of the model (the readers themselves are C19's subject); the phase points written to files have at most 4 binary digits so that the 4-decimal box header and the 9-decimal coordinates are exact and both routes must give bit-identical values; a file without box keeps whatever system.box held (modelled as box0; no agreement of routes is claimed for periodic parameters then). Propagation family: the MD itself is not modelled - the model's propagate_frame takes a frame's raw content as an explicit input, so only frame 0 (the start configuration, on the dyadic grid) is compared in lock-step and clauses (a)-(d) for the later frames are oracle-only (evaluated on the implementation; (c) relies on the integrators being deterministic for equal start and seed, (d) on velocity Verlet being time-reversible, both properties of turtlemd/ASE); turtlemd's VelocityVerlet is plugged into TurtleMDEngine through a one-line adapter, the ASE calculator is ase's own LennardJones loaded through create_external; GROMACS/CP2K/LAMMPS propagations (external programs) are C12's subject. Model numbers are integers (dyadic floats over a common power of two; homogeneity theorems C20_scale_*); rotations are rational (integer matrix M with M^T M = c^2 I). Distancevel is modelled as repaired by proposed_fixes/C20_distancevel_box.diff (lead L7; theorem C20_box_form_distancevel_refuted covers the code as it is). Path.reverse's recomputation of velocity-dependent orders is modelled as it is and does not honour the reversal (lead L12: C20_path_reverse_sign_refuted, C20_path_reverse_unevaluable) - reported as a known finding, not claimed.",
     "design_ref": "4/C20",
 }
 LEVEL = "proof"
@@ -1056,6 +1056,341 @@ def run_routes(ctx, runner, rng, tier):
     return stats
 
 
+# --------------------------------------------------------------------------- propagation: where the package applies the flag
+#
+# EngineBase.propagate(path, ens_set, system, reverse) reverses the velocities of the start configuration when
+# reverse != system.vel_rev, sets system.vel_rev = reverse and lets the engine run; every stored frame gets
+# order = calculate_order(system, xyz, vel, box) on the engine's RAW arrays and vel_rev = reverse.  Real
+# in-process engines (TurtleMDEngine with velocity Verlet and with the Langevin integrator, ASEEngine with
+# velocity Verlet), every built-in order-parameter class, (incoming system.vel_rev) x (reverse).  Statement,
+# evaluated on the implementation:
+#   (a) frame 0 of a run in either direction has the order of the shooting point (order parameter class
+#       evaluated directly on the shooting point's physical phase point), every frame is flagged vel_rev = reverse;
+#   (b) for every stored frame, the order parameter of the configuration the frame refers to (extracted and read
+#       back with the engine's own _extract_frame / _read_configuration, velocities times -1 when the frame's
+#       stored vel_rev is set - what calculate_order does) is the stored order; so is what the engine's own
+#       dump_phasepoint + calculate_order gives for a copy of the frame (the route of prepare_shooting_point);
+#   (c) the run in the opposite direction from the velocity-reversed point (its own file, flag False) visits the
+#       same raw frames (deterministic integrators, Langevin with the same seed): stored orders are the
+#       sign-reversed (Distancevel, Velocity) / equal (Distance, Position, Dihedral, Puckering) counterparts;
+#   (d) velocity Verlet only: running back from the last frame retraces the path with the SAME orders.
+# Lock-step: frame 0 (order and flag) against the model's propagate_frame0 (shooting points on a dyadic grid
+# with <= 4 binary digits, exact in the 9 decimals of the xyz files).
+
+PROP_ENGINES = ("turtlemd_vv", "turtlemd_langevin", "ase_vv")
+PROP_G = {"turtlemd_vv": 4, "turtlemd_langevin": 4, "ase_vv": 2}      # grid 2^-g: 4.0 (turtlemd) / 16.0 (ase) box
+PROP_BOXK = 64
+PROP_NATOM = 7
+PROP_SEED = 20240
+PROP_RINGS = ("chair", "boat", "twist", "envelope")
+
+
+def prop_specs(rng, level):
+    """(kind, idx, periodic): every order-parameter class, velocity-type and position-type.  level 0: the two
+    velocity-type classes + two position-type ones; 1: one or two of every class; 2: open and periodic variants
+    of every class; 3: + seeded random index choices"""
+    ring = [0, 1, 2, 3, 4, 5]
+    specs = [("dvel", [0, 1], True), ("vel", [0, 1], False), ("dist", [0, 1], True), ("puck", ring, False)]
+    if level >= 1:
+        specs += [("dvel", [3, 6], False), ("pos", [2, 0], False), ("dih", [0, 1, 2, 3], True)]
+    if level >= 2:
+        specs += [("dist", [2, 6], False), ("dvel", [4, 1], True), ("pos", [5, 2], False), ("vel", [6, 0], False), ("vel", [3, 2], False),
+                  ("dih", [6, 2, 4, 1], False), ("puck", ring, True)]
+    if level >= 3:
+        for _ in range(40):
+            kind = rng.choice(["dist", "dvel", "dvel", "pos", "vel", "vel", "dih", "puck"])
+            if kind in ("pos", "vel"):
+                specs.append((kind, [rng.randrange(PROP_NATOM), rng.randrange(3)], False))
+            elif kind == "puck":
+                k = rng.randrange(6)
+                specs.append((kind, ring[k:] + ring[:k], rng.random() < 0.5))
+            else:
+                specs.append((kind, rng.sample(range(PROP_NATOM), {"dist": 2, "dvel": 2, "dih": 4}[kind]), rng.random() < 0.6))
+    return specs
+
+
+def prop_point(rng, straddle):
+    """a shooting point on the integer grid: a perturbed six-ring + one atom, non-zero velocities; with
+    `straddle` two ring atoms sit in neighbouring periodic images (periodic and open variants then differ)"""
+    base = RING_SHAPES[rng.choice(PROP_RINGS)]
+    c = [rng.randrange(24, 41) for _ in range(3)]
+    pos = [[c[k] + 2 * p[k] + rng.randrange(-1, 2) for k in range(3)] for p in base]
+    pos.append([c[0] + rng.randrange(-2, 3), c[1] + rng.randrange(-2, 3), c[2] + rng.choice([-1, 1]) * rng.randrange(14, 18)])
+    if straddle:
+        pos[1][0] += PROP_BOXK
+        pos[4][1] -= PROP_BOXK
+    vel = [[rng.choice([-1, 1]) * rng.randrange(4, 25) for _ in range(3)] for _ in range(PROP_NATOM)]
+    return pos, vel
+
+
+def gen_prop(rng, tier):
+    """per engine: the spec level of each shooting point (even points straddle a periodic boundary)"""
+    if tier == "quick":
+        plan = {"turtlemd_vv": [2, 0], "turtlemd_langevin": [0], "ase_vv": [0]}
+    else:
+        plan = {"turtlemd_vv": [3, 2, 2, 2, 2, 2], "turtlemd_langevin": [3, 2, 2], "ase_vv": [3, 2, 2]}
+    cases = []
+    j = 0
+    for eng in PROP_ENGINES:
+        for pi, level in enumerate(plan[eng]):
+            pos, vel = prop_point(rng, straddle=(pi % 2 == 0))
+            for kind, idx, per in prop_specs(rng, level):
+                for flag_in in (False, True):
+                    for reverse in (False, True):
+                        j += 1
+                        nfr = (3 if j % 3 else 4) if (eng == "ase_vv" and tier == "quick") else (6 if j % 3 else 4)
+                        cases.append({"engine": eng, "kind": kind, "idx": idx, "per": per, "g": PROP_G[eng], "pos": pos, "vel": vel,
+                                      "box": [PROP_BOXK] * 3, "flag_in": flag_in, "reverse": reverse, "sp_index": j % 2, "nframes": nfr,
+                                      "retrace": eng.endswith("_vv") and (tier != "quick" or (j // 2) % 2 == 0)})
+    return cases
+
+
+def prop_engine(name):
+    """the real engine classes, built by infretis' own factory"""
+    key = "prop:" + name
+    if key in _ENGINES:
+        return _ENGINES[key]
+    import contextlib
+    import io
+    from infretis.classes.engines.factory import create_engine
+    if name.startswith("turtlemd"):
+        box = PROP_BOXK / 2 ** PROP_G[name]
+        integ = ({"class": "VelocityVerlet", "settings": {}} if name == "turtlemd_vv"
+                 else {"class": "LangevinInertia", "settings": {"gamma": 2.0, "beta": 1.0}})
+        settings = {"class": "turtlemd", "engine": "turtlemd", "timestep": 0.004, "temperature": 1.0, "boltzmann": 1.0, "subcycles": 1,
+                    "integrator": integ,
+                    "potential": {"class": "LennardJones", "settings": {"parameters": {"1": {"sigma": 0.3, "epsilon": 1.0, "rcut": 1.2}}}},
+                    "particles": {"mass": [1.0] * PROP_NATOM, "name": ["Ar"] * PROP_NATOM,
+                                  "pos": [[0.5 * i, 0.0, 0.0] for i in range(PROP_NATOM)]},
+                    "box": {"periodic": [True, True, True], "low": [0.0, 0.0, 0.0], "high": [box, box, box]}}
+        with contextlib.redirect_stdout(io.StringIO()):        # the constructor prints a to-do note for Langevin
+            eng = create_engine({"engine": settings})
+        if name == "turtlemd_vv":
+            # TurtleMDEngine hands every integrator a `seed` argument that turtlemd's VelocityVerlet does not take
+            from turtlemd.integrators import VelocityVerlet
+            eng.integrator = lambda timestep, seed=None, **kw: VelocityVerlet(timestep=timestep)
+            eng.integrator_settings = {}
+    elif name == "ase_vv":
+        import ase.calculators.lj
+        wd = os.getcwd()
+        eng = create_engine({"engine": {"class": "ase", "engine": "ase", "timestep": 0.1, "temperature": 300.0, "subcycles": 1,
+                                        "input_path": wd, "exe_path": wd, "integrator": "velocityverlet",
+                                        "calculator_settings": {"class": "LennardJones", "module": ase.calculators.lj.__file__}}})
+    else:
+        raise ValueError(name)
+    _ENGINES[key] = eng
+    return eng
+
+
+def prop_write(case, path, P, V, B):
+    """the shooting point as a file of the engine; with sp_index = 1 it is the second frame behind a decoy"""
+    decoy = case["sp_index"] == 1
+    if case["engine"] == "ase_vv":
+        import ase
+        from ase.io.trajectory import Trajectory
+        with Trajectory(path, "w") as t:
+            for k in ((0, 1) if decoy else (1,)):
+                a = ase.Atoms("Ar" * len(P), positions=P + (0.0 if k else 0.75), cell=np.diag(B), pbc=False)
+                a.set_velocities(V * (1.0 if k else -0.5))
+                t.write(a)
+    else:
+        from infretis.classes.engines.engineparts import write_xyz_trajectory
+        if decoy:
+            write_xyz_trajectory(path, P + 0.75, V * -0.5, ["Ar"] * len(P), B, append=False)
+        write_xyz_trajectory(path, P, V, ["Ar"] * len(P), B, append=decoy)
+    return path
+
+
+def prop_run(eng, config, flag, reverse, nframes, seed):
+    """EngineBase.propagate of the real engine -> (list of (order, vel_rev, config, frame), error text | None)"""
+    from infretis.classes.path import Path
+    from infretis.classes.system import System
+    sp = System()
+    sp.config = tuple(config)
+    sp.vel_rev = flag
+    path = Path(maxlen=nframes)
+    eng.rgen = np.random.default_rng(seed)
+    ens = {"ens_name": "020", "interfaces": (-1e12, 0.0, 1e12)}
+    try:
+        with np.errstate(all="ignore"):
+            eng.propagate(path, ens, sp, reverse=reverse)
+    except Exception as e:  # noqa: BLE001
+        return [], f"{type(e).__name__}: {e}"[:300]
+    return [([float(x) for x in f.order], bool(f.vel_rev), tuple(f.config), f) for f in path.phasepoints], None
+
+
+def prop_same(kind, a, b, tol, sign=1.0):
+    """sign * a == b within tol (relative to max(1, |.|)); angles modulo their period"""
+    if len(a) != len(b):
+        return False
+    per = {"dih": [2 * math.pi], "puck": [360.0, 360.0, 0]}.get(kind, [0] * len(a))
+    for x, y, p in zip(a, b, per):
+        x = sign * x
+        if math.isnan(x) or math.isnan(y):
+            return False
+        d = abs(x - y)
+        if p:
+            d = abs((x - y + p / 2) % p - p / 2)
+        if d > tol * max(1.0, abs(x), abs(y)):
+            return False
+    return True
+
+
+def prop_eval(case, tmp):
+    from infretis.classes.system import System
+    eng = prop_engine(case["engine"])
+    op = make_op(case)
+    kind = case["kind"]
+    name = type(op).__name__
+    veltype = kind in ("dvel", "vel")
+    sign = -1.0 if veltype else 1.0
+    exact = 1e-9
+    # what the 9 decimals of an xyz frame can change (binary .traj frames are exact); angles in degrees for Puckering
+    ftol = (1e-9 if case["engine"] == "ase_vv" else 2e-6) * (100.0 if kind == "puck" else 1.0)
+    rtol = 1e-5 * (100.0 if kind == "puck" else 1.0)
+    wdir = os.path.join(tmp, "w")
+    common.rmtree(wdir)
+    os.makedirs(wdir)
+    eng.exe_dir = wdir
+    eng.order_function = op
+    P, V, B = route_arrays(case)
+    f, r, n = case["flag_in"], case["reverse"], case["nframes"]
+    ext = eng.ext
+    spfile = prop_write(case, os.path.join(wdir, f"shoot.{ext}"), P, V, B)
+    Vphys = -V if f else V
+    s = System()
+    s.pos, s.vel, s.box = P.copy(), Vphys.copy(), B.copy()
+    with np.errstate(all="ignore"):
+        ref = [float(x) for x in op.calculate(s)]
+    what = (f"{name} on {type(eng).__name__}[{case['engine']}], shooting point with vel_rev={f}, propagate(reverse={r}), {n} frames")
+    fails = []
+    frames, err = prop_run(eng, (spfile, case["sp_index"]), f, r, n, PROP_SEED)
+    out = {"ref": ref, "orders": [fr[0] for fr in frames], "flags": [fr[1] for fr in frames], "fails": fails, "what": what, "checked": 0}
+    if err or len(frames) != n:
+        fails.append(f"{what}: {'raised ' + err if err else f'{len(frames)} frames stored'}")
+        return out
+    # (a)
+    out["checked"] += 1
+    if not prop_same(kind, frames[0][0], ref, exact):
+        fails.append(f"{what}: frame 0 has order {frames[0][0]} but it is the shooting point, whose order is {ref}"
+                     + (" (a velocity-type parameter: the sign is that of the physical velocity)" if veltype else ""))
+    if any(fl is not r for fl in out["flags"]):
+        fails.append(f"{what}: frames are flagged vel_rev={out['flags']}")
+    # (b)
+    recomputed, by_engine = [], []
+    for k, (order, flag, config, frame) in enumerate(frames):
+        raw = os.path.join(wdir, f"c20_raw.{ext}")
+        eng._extract_frame(config[0], config[1], raw)
+        rd = eng._read_configuration(raw)
+        fs = System()
+        fs.pos, fs.vel, fs.box = rd[0], (rd[1] * -1.0 if flag else rd[1]), rd[2]
+        with np.errstate(all="ignore"):
+            recomputed.append([float(x) for x in op.calculate(fs)])
+        cp = frame.copy()
+        eng.dump_phasepoint(cp, deffnm="c20_recheck")
+        with np.errstate(all="ignore"):
+            by_engine.append([float(x) for x in eng.calculate_order(cp)])
+    out["recomputed"], out["recomputed_by_engine"] = recomputed, by_engine
+    for k in range(n):
+        out["checked"] += 2
+        if not prop_same(kind, frames[k][0], recomputed[k], ftol):
+            fails.append(f"{what}: frame {k} (vel_rev={frames[k][1]}) has stored order {frames[k][0]} but the order parameter of the configuration "
+                         f"it refers to, with the velocities {'reversed' if frames[k][1] else 'as stored'} as its flag says, is {recomputed[k]}")
+            break
+        if not prop_same(kind, frames[k][0], by_engine[k], ftol):
+            fails.append(f"{what}: frame {k} has stored order {frames[k][0]} but dump_phasepoint + calculate_order of the same frame gives {by_engine[k]}")
+            break
+    # (c) the opposite direction from the velocity-reversed point: same raw frames
+    rcase = dict(case, sp_index=0)
+    rfile = prop_write(rcase, os.path.join(wdir, f"reversed.{ext}"), P, -Vphys, B)
+    cframes, cerr = prop_run(eng, (rfile, 0), False, not r, n, PROP_SEED)
+    out["counterpart_orders"] = [fr[0] for fr in cframes]
+    if cerr or len(cframes) != n:
+        fails.append(f"{what}: the run in the opposite direction from the reversed point {'raised ' + cerr if cerr else f'stored {len(cframes)} frames'}")
+    else:
+        for k in range(n):
+            out["checked"] += 1
+            if not prop_same(kind, frames[k][0], cframes[k][0], exact, sign):
+                fails.append(f"{what}: frame {k} has order {frames[k][0]}; the run with reverse={not r} from the velocity-reversed point goes through the "
+                             f"same raw frames and stores {cframes[k][0]} there: they should be {'opposite' if veltype else 'equal'}")
+                break
+    # (d) time reversibility of velocity Verlet: back from the last frame
+    if case.get("retrace"):
+        last = frames[-1]
+        bframes, berr = prop_run(eng, last[2], last[1], not r, n, PROP_SEED)
+        out["retraced_orders"] = [fr[0] for fr in bframes]
+        if berr or len(bframes) != n:
+            fails.append(f"{what}: the run back from the last frame {'raised ' + berr if berr else f'stored {len(bframes)} frames'}")
+        else:
+            for k in range(n):
+                out["checked"] += 1
+                if not prop_same(kind, bframes[k][0], frames[n - 1 - k][0], rtol):
+                    fails.append(f"{what}: running with reverse={not r} from the last frame retraces the path (velocity Verlet), but its frame {k} has "
+                                 f"order {bframes[k][0]} where frame {n - 1 - k} of the path has {frames[n - 1 - k][0]}")
+                    break
+    return out
+
+
+def prop_request(case):
+    inner = {"kind": case["kind"], "idx": case["idx"], "per": case["per"], "pos": case["pos"], "vel": case["vel"], "box": case["box"], "tr": None}
+    return f"prop {int(case['flag_in'])} {int(case['reverse'])} {request(inner, False)}"
+
+
+def run_propagation(ctx, runner, rng, tier):
+    stats = {"propagation_cases": 0, "propagation_oracle_statements": 0, "propagation_oracle_failures": 0,
+             "propagation_lockstep_compared": 0, "propagation_lockstep_disagreements": 0, "propagation_sign_sensitive": 0}
+    import time
+    t0 = time.time()
+    cases = gen_prop(rng, tier)
+    tmp = common.scratch_dir("c20p_")
+    cwd = os.getcwd()
+    try:
+        os.chdir(tmp)
+        evs = [prop_eval(c, tmp) for c in cases]
+    finally:
+        os.chdir(cwd)
+        common.rmtree(tmp)
+    stats["propagation_wall_s"] = round(time.time() - t0, 1)
+    reqs = [prop_request(c) for c in cases]
+    outs = runner.run(reqs)
+    nrep, pending = {}, []
+    for case, ev, rq, mo in zip(cases, evs, reqs, outs):
+        stats["propagation_cases"] += 1
+        stats["propagation_oracle_statements"] += ev["checked"]
+        ctx.count(rq + f" {case['engine']} sp{case['sp_index']} n{case['nframes']}", nontrivial=True)
+        ctx.dist(f"propagate/{case['engine']}/{case['kind']}/{'periodic' if case['per'] else 'open'}/vel_rev_in={int(case['flag_in'])}/reverse={int(case['reverse'])}")
+        if case["kind"] in ("dvel", "vel") and abs(ev["ref"][0]) > 1e-3:
+            stats["propagation_sign_sensitive"] += 1
+        payload = {"prop_case": case, "shooting_point_order": ev["ref"], "stored_orders": ev["orders"], "stored_vel_rev": ev["flags"],
+                   "request": rq, "model": mo}
+        if ev["fails"]:
+            stats["propagation_oracle_failures"] += 1
+            # the most direct failures first: clause (a) on the case's own run, then (b), then the auxiliary runs
+            rank = 0 if "it is the shooting point" in ev["fails"][0] else 1 if "stored order" in ev["fails"][0] else 2
+            nrep.setdefault(case["kind"], []).append((rank, len(nrep.get(case["kind"], ())), ev["fails"][0], dict(payload, observed=ev["fails"])))
+        if not ev["orders"]:
+            continue
+        stats["propagation_lockstep_compared"] += 1
+        mord, _, mflag = mo.rpartition(" ")
+        eo, fl = expect(case, mord, 2 ** case["g"])
+        if not (close(eo, ev["orders"][0], fl) and mflag == str(int(ev["flags"][0]))):
+            stats["propagation_lockstep_disagreements"] += 1
+            if not ev["fails"]:
+                pending.append(dict(payload, expected_from_model=eo, model_flag=mflag))
+    found = bool(nrep)
+    for cat in nrep:
+        for _, _, msg, pl in sorted(nrep[cat], key=lambda x: x[:2])[:MAXREP - 1]:
+            ctx.violation("C20 statement fails on the implementation: " + msg, dict(pl, failing_cases_in_this_category=len(nrep[cat])), True)
+    for pl in pending[:MAXREP]:
+        ctx.violation("correspondence model/implementation broken for frame 0 of EngineBase.propagate "
+                      f"({'a failing input of the property was found separately' if found else 'property oracle found no failing input'} among {len(cases)} propagations)",
+                      dict(pl, correspondence="c20 runner (propagate_frame0) vs EngineBase.propagate + _propagate_from of the real engines"), False)
+    k = len(cases) // 2
+    ctx.sample({"prop_case": cases[k], "request": reqs[k], "model": outs[k], "shooting_point_order": evs[k]["ref"], "stored_orders": evs[k]["orders"],
+                "stored_vel_rev": evs[k]["flags"]})
+    return stats
+
+
 # --------------------------------------------------------------------------- witnesses of the Coq file on the implementation
 
 
@@ -1103,6 +1438,7 @@ def run(ctx):
     stats.update(run_pbc(ctx, runner, rng, ctx.tier))
     stats.update(run_path_reverse(ctx, runner, rng, ctx.tier))
     stats.update(run_routes(ctx, runner, rng, ctx.tier))
+    stats.update(run_propagation(ctx, runner, rng, ctx.tier))
     run_witnesses(ctx)
     for k in (0, len(col.items) // 3, len(col.items) // 2, len(col.items) - 1):
         case, i0, i1, io, it, _, _ = col.items[k]
@@ -1116,7 +1452,12 @@ def run(ctx):
         "on every atom and dimension; Path.reverse on every frame sequence up to length 2 (3) over {3 stored velocities, a frame without arrays} "
         "x velocity-dependent x rev_v; calculate_order on 3 real engines x the 7 ways of leaving out at least one of xyz / vel / box (file route) and the "
         "array route x file with / without box x vel_rev x every atom and dimension (Position, Velocity), every pair (Distance, Distancevel, open and periodic) "
-        "and two dihedrals of a 4-atom system, with decoy overrides and a stale system.box, plus seeded random phase points. Seeded random beyond: ring shapes (chair, boat, planar, twist, envelope, collinear) with perturbations "
+        "and two dihedrals of a 4-atom system, with decoy overrides and a stale system.box, plus seeded random phase points; EngineBase.propagate on 3 real in-process "
+        "engines (TurtleMDEngine with velocity Verlet and with Langevin, ASEEngine with velocity Verlet; 7 Lennard-Jones atoms in a periodic box, a six-ring + one atom, "
+        "seeded shooting points on the dyadic grid, every other one with ring atoms in neighbouring periodic images) x order-parameter classes (all six on TurtleMD/velocity Verlet, "
+        "open and periodic; quick: Distancevel, Velocity, Distance, Puckering on the other two engines, thorough: all six + seeded random index choices) x incoming "
+        "system.vel_rev x reverse, 3-6 frames, start configuration alone in its file or behind a decoy frame; each case is followed by the run in the opposite direction "
+        "from the velocity-reversed point and (velocity Verlet) by the run back from the last frame. Seeded random beyond: ring shapes (chair, boat, planar, twist, envelope, collinear) with perturbations "
         "for Puckering; random systems of 6-8 atoms, grid 2^-g (g <= 6), open / power-of-two / arbitrary / 9-component boxes, forced half-box "
         "separations. Every case is run untransformed and through one map of a fixed cycle (translation, image shift, proper and improper "
         "rational rotation, velocity reversal, vel_rev flag of calculate_order, common factor). A case is distinct by its request line; all are "
@@ -1127,6 +1468,11 @@ def run(ctx):
         "py/checks/c20.py: the configuration files of the calculate_order cases are written with infretis' own write_xyz_trajectory / write_gromos96_file (C19's subject); CP2KEngine / GromacsEngine objects are created without running __init__",
         "py/checks/c20.py: generators, numpy versions of the symmetry maps, and the application of sqrt/arctan2/sin/cos to the model's exact arguments (puck_from_z, expect)",
         "numpy float arithmetic is exact on the dyadic inputs used up to the final sqrt/arctan2/normalisation (tolerance 1e-9)",
+        "py/checks/c20.py, propagation family: TurtleMDEngine / ASEEngine are built by infretis' create_engine; turtlemd's VelocityVerlet is plugged in through a one-line adapter "
+        "(TurtleMDEngine hands every integrator a seed argument it does not take); the ASE calculator is ase.calculators.lj.LennardJones loaded through create_external; "
+        "start configurations are written with write_xyz_trajectory / ase Trajectory; determinism of the integrators for equal start and seed (clause c) and time "
+        "reversibility of velocity Verlet over <= 6 steps to 1e-5 (clause d) are properties of turtlemd / ASE, not of infretis; tolerances: 1e-9 for values computed from "
+        "the same floats (frame 0, clause c), 2e-6 against the 9 decimals of xyz frames (x100 for Puckering, in degrees; measured deviations are below 1% of the tolerances)",
     ]
     ctx.assumptions += [
         "box lengths positive, indices non-negative; orthogonal boxes (only the first three box entries are read by the code)",
@@ -1142,6 +1488,32 @@ def replay(doc):
     print(json.dumps({k: v for k, v in doc.items() if k != "replay"}, indent=1))
     case = rp.get("case")
     r = common.Runner("c20")
+    if rp.get("prop_case"):
+        pc = rp["prop_case"]
+        print("propagation case:", json.dumps(pc))
+        tmp = common.scratch_dir("c20r_")
+        cwd = os.getcwd()
+        try:
+            os.chdir(tmp)
+            ev = prop_eval(pc, tmp)
+        finally:
+            os.chdir(cwd)
+            common.rmtree(tmp)
+        rq = prop_request(pc)
+        mo = r.run([rq])[0]
+        mord, _, mflag = mo.rpartition(" ")
+        print("shooting point, order parameter class evaluated directly on the physical phase point:", ev["ref"])
+        print("stored orders :", ev["orders"])
+        print("stored vel_rev:", ev["flags"])
+        for k in ("recomputed", "recomputed_by_engine", "counterpart_orders", "retraced_orders"):
+            if k in ev:
+                print(f"{k}:", ev[k])
+        print(f"model, frame 0 ({rq}): {mo} -> order {expect(pc, mord, 2 ** pc['g'])[0]}, vel_rev {mflag}")
+        for f in ev["fails"]:
+            print("statement fails:", f)
+        if not ev["fails"]:
+            print("statement on the implementation: holds")
+        return 1 if ev["fails"] else 0
     if rp.get("engine_case"):
         ec = rp["engine_case"]
         print("calculate_order case:", json.dumps(ec))
